@@ -130,6 +130,7 @@ structure ProbeSt where
   holder : Option Nat := none                -- who is inside the breaker's state mutex
   closedRead : List Nat := []                -- threads that, in their running operation, entered the state mutex while it said Closed
   probeBy : List Nat := []                   -- threads that, in their running operation, performed Open→Half-Open
+  leftHalfOpenBy : List Nat := []            -- threads that, in their running operation, moved the breaker out of Half-Open
   bad : Option String := none
 
 /-- C16: every admitted request must be justified: inside the request its thread either entered the breaker's state mutex
@@ -153,14 +154,24 @@ def specProbes (st : St) (v : Verdict) (i : Nat) : Verdict :=
           let probeBy := match to, p.holder with
             | .halfOpen, some h => h :: p.probeBy
             | _, _ => p.probeBy
-          { p with state := to, probeBy := probeBy }
+          let left := match p.state, to, p.holder with
+            | .halfOpen, .halfOpen, _ => p.leftHalfOpenBy
+            | .halfOpen, _, some h => h :: p.leftHalfOpenBy
+            | _, _, _ => p.leftHalfOpenBy
+          { p with state := to, probeBy := probeBy, leftHalfOpenBy := left }
         | _ => p
       else if kind == "note" then
         let justified := p.closedRead.contains t || p.probeBy.contains t
         let bad := if body.startsWith "build=pass" && !justified && p.bad.isNone then
             some s!"thread t{t} was admitted although, during its request, it neither found the breaker Closed nor performed the Open→Half-Open transition itself (state at the end of the request: {repr p.state})"
           else p.bad
-        { p with bad := bad, closedRead := p.closedRead.filter (· != t), probeBy := p.probeBy.filter (· != t) }
+        -- a Half-Open phase ends by a completion (an `exit`) or by the rejection of the probe itself (its own `build`):
+        -- a request that is not the probe never moves the breaker out of Half-Open
+        let bad := if body.startsWith "build=" && p.leftHalfOpenBy.contains t && !p.probeBy.contains t && bad.isNone then
+            some s!"thread t{t} moved the breaker out of Half-Open during a request that was not the probe (one probe per Half-Open phase: the phase was ended by a bystander)"
+          else bad
+        { p with bad := bad, closedRead := p.closedRead.filter (· != t), probeBy := p.probeBy.filter (· != t),
+                 leftHalfOpenBy := p.leftHalfOpenBy.filter (· != t) }
       else p
   -- notifications from the setup (before the schedule started) are in the listener log only: they fix the initial state
   let inRun := (st.log.filter (fun e => e.getD 1 "" == "note" && (e.getD 2 "").startsWith "ev=")).length
